@@ -1175,7 +1175,7 @@ namespace jsonschema {
 
         walk_state do_validate(const eval_context<Json>& context, const Json& instance, 
             const jsonpointer::json_pointer& instance_location,
-            evaluation_results& results, 
+            evaluation_results& /*results*/, 
             error_reporter<Json>& reporter, 
             jsoncons::optional<Json>& patch) const final
         {
@@ -1200,10 +1200,7 @@ namespace jsonschema {
                     return result;
                 }
             }
-            else
-            {
-                results.merge(local_results);
-            }
+            // "not" never contributes annotations: the results of a subschema that failed are dropped
             return walk_state::advance;
         }
 
